@@ -52,7 +52,7 @@ RULE = (
     "states and edges were validated. Alphabet: model class (EOF, ComplexEOF, SparsePCA, POP, EOFRotator, ComplexEOFRotator, CPCCA alpha .5/1, "
     "MCA, CCA, RDA, ComplexCPCCA, ComplexMCA [ComplexCCA, ComplexRDA thorough], CPCCARotator alpha .5/1, MCARotator, ComplexCPCCARotator, "
     "ComplexMCARotator, multi.CCA) x sample structure (one dim, two dims, MultiIndex, fit MultiIndex/new plain, fit plain/new MultiIndex) x "
-    "coordinates (disjoint, overlapping, equal to training, repeated, training rows at own / at new coordinates, one all-NaN sample) x "
+    "coordinates (disjoint, overlapping, equal to training, repeated, training rows at own / at new coordinates, one all-NaN sample, repeated labels with an all-NaN sample sharing / not sharing its label with valid samples) x "
     "n_new = 5 (two dims: 3x2 block; quick: 3 resp. 2x2 outside the key classes), whose lattice contains as lower ideals the complete lattices of "
     "its 1..4-sample (1x1..2x2) prefixes, x arguments (X and Y, X only, Y only) [x normalized (quick: one_dim, disjoint/train_subset only), standardize+coslat: thorough]"
 )
@@ -112,7 +112,12 @@ def class_of(model):
 
 
 STRUCTURES = ("one_dim", "two_dims", "multiindex", "mi_fit_plain_new", "plain_fit_mi_new")
-COORDS = ("disjoint", "overlap", "equal", "repeats", "train_subset", "train_moved", "nan_sample")
+COORDS = ("disjoint", "overlap", "equal", "repeats", "train_subset", "train_moved", "nan_sample", "repeats_nan_shared", "repeats_nan_unique")
+# repeated sample labels combined with one entirely missing sample: its label is also carried by valid samples
+# ("shared": dropping it BY LABEL would silently drop those too) / is unique next to repeated valid labels
+NAN_KINDS = ("nan_sample", "repeats_nan_shared", "repeats_nan_unique")
+REPEATS_NAN = ("repeats_nan_shared", "repeats_nan_unique")
+QUICK_REPEATS_NAN_MODELS = ("EOF", "MCA", "EOFRotator", "CPCCARotator_a05")
 
 
 def _fit_is_mi(structure):
@@ -126,6 +131,8 @@ def _new_is_mi(structure):
 def _admissible(structure, coords):
     if structure in ("mi_fit_plain_new", "plain_fit_mi_new") and coords in ("overlap", "equal", "train_subset"):
         return False  # training labels are not expressible in the other index kind
+    if structure == "two_dims" and coords in REPEATS_NAN:
+        return False  # a repeated label in one of two sample dims cannot be unstacked at all (known finding C05-K1, class 'repeats')
     return True
 
 
@@ -139,7 +146,7 @@ def sizes_for(tier, structure, coords, fam, args, secondary):
     one = structure != "two_dims"
     big, small = (5, 3) if one else ((3, 2), (2, 2))
     if tier == "quick":
-        key = structure == "one_dim" and coords in ("disjoint", "repeats", "train_subset") and not (fam == "cross" and args != "XY")
+        key = structure == "one_dim" and coords in ("disjoint", "repeats", "train_subset") + REPEATS_NAN and not (fam == "cross" and args != "XY")
         n = big if key else small
     else:
         n = small if secondary else big
@@ -175,6 +182,8 @@ def cases(tier, seed):
                                 if structure in ("mi_fit_plain_new", "plain_fit_mi_new") and coords != "disjoint":
                                     continue
                                 if structure in ("two_dims", "multiindex") and coords in ("equal", "train_moved"):
+                                    continue
+                                if coords in REPEATS_NAN and (model not in QUICK_REPEATS_NAN_MODELS or structure not in ("one_dim", "multiindex")):
                                     continue
                             elif fam == "cross" and args != "XY" and coords in ("overlap", "equal", "train_moved"):
                                 continue
@@ -255,6 +264,10 @@ def _time_labels(coords, n):
         return [3, 3, 100, 3, 100][:n]
     if coords == "train_moved":
         return [204, 200, 202, 201, 203][:n]
+    if coords == "repeats_nan_shared":
+        return [3, 3, 100, 3, 100][:n]  # sample 1 is entirely missing; samples 0 and 3 carry its label
+    if coords == "repeats_nan_unique":
+        return [3, 101, 3, 100, 100][:n]  # sample 1 is entirely missing and alone under its label
     raise ValueError(coords)
 
 
@@ -299,7 +312,7 @@ def new_data(structure, coords, n, cplx, seed, Mx, My, base=False):
         Zx = D.make_matrix(6, 6, "geometric", 1.0, cplx, seed, salt=511)[:m] * 1.5 + 0.5
         Zy = D.make_matrix(6, 4, "geometric", 1.0, cplx, seed, salt=512)[:m] - 1.0
     nan = set()
-    if coords == "nan_sample" and not base:
+    if coords in NAN_KINDS and not base:
         nan = {1 if not two else (1 * grid[1] + 0)}  # second time label (two dims: its first run)
         Zx = Zx.copy()
         Zx[sorted(nan)] = np.nan
